@@ -66,7 +66,7 @@ P("C04", "proof", "Lean 4 theorems (acceptance rule, first-offender error, appen
   "(checked_error_first). For Unix the result's components are exactly the base's followed by the argument's minus a "
   "leading `.`, and the added components never climb (unix_checked_keeps_base, unix_checked_empty_base). "
   "For Windows the same keeps-base statement is proved for every non-empty prefix-free base, i.e. one that does not "
-  "start with two separators or `X:` (win_checked_keeps_base_pf).",
+  "start with two separators or `X:` (win_checked_keeps_base_pf). For Windows bases WITH a complete non-verbatim prefix (disk, device namespace, UNC with share) the keeps-base statement is proved too, the implicit root of a bare device-namespace / UNC prefix written out, and the result is again well-formed (C04b.win_checked_keeps_base_prefixed); an accepted argument never starts like a prefix or with a separator (C04b.accepted_prefix_free).",
   "Partial: the keeps-base clause for Windows bases WITH a prefix is not proved — it is false for bases that start "
   "with two separators, known finding K3 (proved as windows_K3_witness) — the oracle decides it on every run with K3 "
   "set aside by a narrow class predicate. 'Failure leaves the base unchanged' is by construction in the model (no buffer is "
@@ -74,8 +74,9 @@ P("C04", "proof", "Lean 4 theorems (acceptance rule, first-offender error, appen
   "differential testing; byte/UTF-8/typed forms agree: oracle.",
   theorems=["TP.C04.neverClimbs_iff_counts", "TP.C04.scan_none_iff", "TP.C04.checked_accepts_iff", "TP.C04.checked_ok_eq_push",
             "TP.C04.checked_error_first", "TP.C04.unix_checked_keeps_base", "TP.C04.unix_checked_empty_base", "TP.C04.windows_K3_witness",
-            "TP.unix_push_comps", "TP.C16b.win_checked_keeps_base_pf"],
-  modules=["TypedPathVerif.Lemmas.Append", "TypedPathVerif.Props.C16b"],
+            "TP.unix_push_comps", "TP.C16b.win_checked_keeps_base_pf",
+            "TP.C04b.accepted_prefix_free", "TP.C04b.win_checked_keeps_base_prefixed", "TP.Win.win_push_comps_prefixed"],
+  modules=["TypedPathVerif.Lemmas.Append", "TypedPathVerif.Props.C16b", "TypedPathVerif.Props.C04b"],
   rule=NONTRIV + "non-trivial = argument has >= 2 components or is rejected", design_ref="§5 C04")
 
 P("C05", "proof", "Lean 4 theorems (lexicographic total-order laws, eq iff components, hash factors through components) + model/code correspondence incl. exact hasher input",
@@ -134,13 +135,15 @@ P("C08", "proof", "Lean 4 theorems (model push = documented rule table, byte-exa
   "prefix); under a verbatim prefix the result is the re-rendering of a's components followed by b's with `.` dropped, "
   "`..` cancelling only a preceding normal component and a root resetting to the prefix (win_push_verbatim, "
   "verbatimFold_no_cur_added); an empty b changes nothing (win_push_empty); sequences of pushes follow the rules "
-  "(pushes_follow_rules).",
+  "(pushes_follow_rules). Component clause: for a prefix-free non-empty base and for a base with a complete non-verbatim prefix, joining a non-empty relative prefix-free argument yields the base's components followed by the argument's minus a leading `.` — directly after a bare `X:` the argument's components unchanged, after a bare device-namespace / UNC prefix the implicit root first (C16b.win_push_comps_pf, Win.win_push_comps_prefixed).",
   "Partial: the component-level clause (the result's components are a's followed by b's) is not proved for Windows; it "
   "is false at known finding K3 (win_push_K3_witness) and is decided by the oracle with K3 set aside by a narrow class "
   "predicate. That the rendering under a verbatim prefix re-parses to the folded components is likewise by oracle. "
   "Model=code by differential testing; the harness has an independent Rust version of the rule table.",
   theorems=["TP.C08.win_push_bytes", "TP.C08.win_push_verbatim", "TP.C08.verbatimFold_no_cur_added", "TP.C08.win_push_empty",
-            "TP.C08.pushes_follow_rules", "TP.C08.win_push_K3_witness", "TP.C08.wPrefix_eq", "TP.C08.wIsOnlyDisk_eq", "TP.C08.hasRoot_no_prefix"],
+            "TP.C08.pushes_follow_rules", "TP.C08.win_push_K3_witness", "TP.C08.wPrefix_eq", "TP.C08.wIsOnlyDisk_eq", "TP.C08.hasRoot_no_prefix",
+            "TP.Win.win_push_comps_prefixed", "TP.C16b.win_push_comps_pf", "TP.C12c.push_name"],
+  modules=["TypedPathVerif.Lemmas.WinAppend", "TypedPathVerif.Props.C12c"],
   rule=NONTRIV + "bases x arguments; non-trivial = non-empty argument", design_ref="§5 C08")
 
 P("C09", "proof", "Lean 4 theorems (law B of the back parser, byte-prefix lemma, law R incl. stability of every complete Windows prefix under truncation, ancestors chain with fuel adequacy) + model/code correspondence",
@@ -172,14 +175,16 @@ P("C10", "proof", "Lean 4 theorems for Unix (laws F/R + append lemma) + model/co
   "mirror image (unix_ends_with_iff); strip_prefix succeeds exactly when starts_with holds "
   "(unix_strip_iff_starts), the remainder's components are the path's after the base's (unix_strip_comps) and the "
   "base joined with the remainder equals the path (unix_strip_join); for a relative b and non-empty a, a joined with "
-  "b starts with a and stripping a yields b's components minus a leading `.` (unix_join_starts_strip).",
+  "b starts with a and stripping a yields b's components minus a leading `.` (unix_join_starts_strip). For BOTH encodings and all byte strings: starts_with / ends_with hold exactly when the component texts of the base are a leading / trailing run of the path's component texts, and strip_prefix succeeds exactly when starts_with holds (C10b.starts_with_iff_texts, ends_with_iff_texts, strip_iff_starts) — a prefix component's text being its raw spelling is K2. For Windows paths that do not start like a prefix the tests are exactly leading / trailing runs of components, in particular for equal paths (win_starts_with_iff, win_ends_with_iff, win_starts_ends_of_eq), and a join starts with its base (win_join_starts_pf, win_join_starts_prefixed, win_join_name_starts).",
   "Partial: on Windows the statement is false in two known ways — prefix components are compared by spelling (K2, "
   "proved as win_starts_with_K2_witness) and a remainder / base beginning with two separators re-parses as a UNC "
   "prefix (K3) — and the remaining Windows cases need the Windows append / re-parse lemmas, which are not proved; "
   "the oracle decides them on pairs of well-formed paths with re-spellings, K2/K3 set aside by narrow class "
   "predicates. UTF-8 / typed forms: oracle. Model=code by differential testing.",
   theorems=["TP.C10.unix_starts_with_iff", "TP.C10.unix_starts_with_of_eq", "TP.C10.unix_ends_with_iff", "TP.C10.unix_strip_iff_starts",
-            "TP.C10.unix_strip_comps", "TP.C10.unix_strip_join", "TP.C10.unix_join_starts_strip", "TP.C10.win_starts_with_K2_witness"],
+            "TP.C10.unix_strip_comps", "TP.C10.unix_strip_join", "TP.C10.unix_join_starts_strip", "TP.C10.win_starts_with_K2_witness",
+            "TP.C10b.starts_with_iff_texts", "TP.C10b.ends_with_iff_texts", "TP.C10b.strip_iff_starts", "TP.C10b.win_starts_with_iff", "TP.C10b.win_ends_with_iff", "TP.C10b.win_starts_ends_of_eq", "TP.C10b.win_join_starts_pf", "TP.C10b.win_join_starts_prefixed", "TP.C10b.win_join_name_starts"],
+  modules=["TypedPathVerif.Props.C10b"],
   rule=NONTRIV + "pairs (path, every byte-prefix and suffix of it, re-spellings, random others); non-trivial = proper non-empty component prefix", design_ref="§5 C10")
 
 P("C11", "proof", "Lean 4 theorems for Unix (render lemma: pushing the folded components re-parses to them) + model/code correspondence; Windows by fold oracle",
@@ -201,14 +206,15 @@ P("C12", "proof", "Lean 4 theorems (law B; list lemma on the dot split) + model/
   "Proved in Lean for both encodings: file_name is the last component iff it is a normal name (file_name_iff_last_normal), "
   "no file name means no stem and no extension, and stem/extension split the name at its last dot with the `..` and "
   "leading-dot exceptions so that stem + '.' + extension reproduce the name (stem_ext_split, leading_dot_no_extension; "
-  "rsplitDot_spec is the underlying pure list lemma).",
+  "rsplitDot_spec is the underlying pure list lemma). Windows replacement clause: for every base that does not start like a prefix or has a complete non-verbatim prefix, and every portable single name n, with_file_name gives file name n and a parent with the old parent's components (implicit root of a bare device-namespace / UNC prefix shown), or the join when there was no file name (C12c.win_with_file_name).",
   "For Unix also the replacement clause: replacing the file name by a good single name n gives file name n and a parent "
   "with the old parent's components, or the join when there was no file name (C12b.unix_with_file_name). "
   "Partial: the replacement clause for Windows is decided by the oracle and the correspondence, not by a theorem (it "
   "needs the Windows append lemma and is subject to known finding K3). Model=code by differential testing.",
   theorems=["TP.C12.file_name_iff_last_normal", "TP.C12.no_file_name_no_stem_ext", "TP.C12.stem_ext_split", "TP.C12.leading_dot_no_extension", "TP.rsplitDot_spec",
-            "TP.C12b.unix_with_file_name"],
-  modules=["TypedPathVerif.Lemmas.DotSplit", "TypedPathVerif.Props.C12b"],
+            "TP.C12b.unix_with_file_name",
+            "TP.C12c.win_with_file_name", "TP.C12c.push_name", "TP.C12c.fileName_parent_of_comps"],
+  modules=["TypedPathVerif.Lemmas.DotSplit", "TypedPathVerif.Props.C12b", "TypedPathVerif.Props.C12c"],
   rule=NONTRIV + "names over {. a b} exhaustively; non-trivial = file name containing a dot / path with a file name", design_ref="§5 C12")
 
 P("C13", "proof", "Lean 4 byte-level theorem (cut at the end of the stem) + model/code correspondence; Unix vs std and name/parent clauses by oracle",
